@@ -1,5 +1,193 @@
 package c16
 
-import "verif/internal/fw"
+import (
+	"context"
+	"encoding/binary"
+	"encoding/json"
+	"fmt"
+	"math/big"
+	"time"
 
-func runService(c *fw.Ctx) {}
+	"gitlab.com/aquachain/aquachain/aqua"
+	"gitlab.com/aquachain/aquachain/aqua/filters"
+	"gitlab.com/aquachain/aquachain/aquadb"
+	"gitlab.com/aquachain/aquachain/common"
+	"gitlab.com/aquachain/aquachain/consensus/aquahash"
+	"gitlab.com/aquachain/aquachain/core"
+	"gitlab.com/aquachain/aquachain/core/types"
+	"gitlab.com/aquachain/aquachain/node"
+	"gitlab.com/aquachain/aquachain/p2p"
+	"gitlab.com/aquachain/aquachain/params"
+	rpcclient "gitlab.com/aquachain/aquachain/rpc/rpcclient"
+	"verif/internal/fw"
+)
+
+// Leg "service" (thorough): the node's own backend. A full in-process node
+// (node.New + aqua.New, fake proof-of-work, no networking) imports a generated
+// chain long enough for the real bloom indexer (sections of
+// params.BloomBitsBlocks = 4096, 256 confirmations, aqua.startBloomHandlers)
+// to index sections; queries go through filters.New over the node's
+// AquaApiBackend and through the in-process RPC method aqua_getLogs.
+
+var svcConfig *params.ChainConfig
+
+func runService(c *fw.Ctx) {
+	const chainID = 777016
+	if svcConfig == nil {
+		cfg := *params.TestChainConfig
+		cfg.ChainId = new(big.Int).SetUint64(chainID)
+		svcConfig = &cfg
+		params.AddChainConfig("verif-c16", svcConfig)
+	}
+	r := c.Rand("service")
+	size := params.BloomBitsBlocks
+	nsec := 1 + c.Batch%2 // batch 0: one section, batch 1: two
+	cr := &chainRun{c: c, r: r, verified: map[uint64]common.Hash{}}
+	cr.d = chainDesc{Chain: 0, Config: "test_hf1to7(service)", Size: size, MainLen: bloomConfirms + int(size)*nsec - 1 + r.Range(0, 60), Shallow: r.Range(1, 9)}
+	cr.d.Cuts = []int{bloomConfirms + int(size)*nsec - 2, cr.d.MainLen}
+	if c.Batch%2 == 0 {
+		cr.d.DeepFork = int(size) - r.Range(1, 40)
+	}
+	id := "service"
+	var stack *node.Node
+	var cancel context.CancelFunc
+	ok := false
+	c.Case(id+"/build", cr.d, func() {
+		if err := generatorWorks(size); err != nil {
+			c.Violate("generator_bitset_unavailable", "Generator.Bitset", "section_size_at_or_above_bloom_bit_length", err.Error())
+			return
+		}
+		cr.buildLedger(svcConfig)
+		var ctx context.Context
+		ctx, cancel = context.WithCancel(context.Background())
+		var err error
+		stack, err = node.New(&node.Config{
+			Context:           ctx,
+			CloseMain:         func(err error) {},
+			DataDir:           c.Dir,
+			UseLightweightKDF: true,
+			Name:              "test-verif-c16",
+			P2P:               &p2p.Config{ChainId: chainID, NoDiscovery: true, NoDial: true, ListenAddr: "127.0.0.1:0", MaxPeers: 0, Offline: true},
+			RPCAllowIP:        []string{"127.0.0.1/32"},
+			IPCPath:           "v.ipc",
+			NoCountdown:       true,
+		})
+		if err != nil {
+			panic(fmt.Sprintf("harness: node.New: %v", err))
+		}
+		acfg := aqua.NewDefaultConfig()
+		acfg.Genesis = cr.w.Spec
+		acfg.Aquahash = &aquahash.Config{PowMode: aquahash.ModeFake}
+		acfg.ChainId = chainID
+		acfg.DatabaseCache = 64
+		acfg.TrieCache = 64
+		def := node.NewDefaultConfig()
+		def.Name = "test-verif-c16"
+		nodename := def.NodeName()
+		if err = stack.Register(func(nodectx *node.ServiceContext) (node.Service, error) {
+			return aqua.New(ctx, nodectx, acfg, nodename)
+		}); err != nil {
+			panic(fmt.Sprintf("harness: register: %v", err))
+		}
+		if err = stack.Start(ctx); err != nil {
+			panic(fmt.Sprintf("harness: start: %v", err))
+		}
+		var svc *aqua.Aquachain
+		if err = stack.Service(&svc); err != nil {
+			panic(fmt.Sprintf("harness: service: %v", err))
+		}
+		if svc.BlockChain().Genesis().Hash() != cr.led.tree.Genesis.Hash() {
+			panic("harness: node genesis differs from the generated one")
+		}
+		client, err := stack.Attach(ctx, "verif")
+		if err != nil {
+			panic(fmt.Sprintf("harness: attach: %v", err))
+		}
+		cr.bc = svc.BlockChain()
+		cr.db = svc.ChainDb()
+		be := svc.ApiBackend
+		table := aquadb.NewTable(cr.db, string(core.BloomBitsIndexPrefix))
+		cr.sections = func() uint64 { _, n := be.BloomStatus(); return n }
+		cr.progress = func() (uint64, common.Hash) {
+			_, n := be.BloomStatus()
+			if n == 0 {
+				return 0, common.Hash{}
+			}
+			var k [8]byte
+			binary.BigEndian.PutUint64(k[:], n-1)
+			h, _ := table.Get(append([]byte("shead"), k[:]...))
+			return n, common.BytesToHash(h)
+		}
+		cr.exec = func(q *query) ([]*types.Log, error) { return serviceQuery(be, client, q) }
+		ok = true
+	})
+	defer func() {
+		if stack != nil {
+			stack.Stop()
+		}
+		if cancel != nil {
+			cancel()
+		}
+	}()
+	if !ok {
+		return
+	}
+	nq := 150
+	prev := 0
+	for si, cut := range cr.d.Cuts {
+		cr.state = fmt.Sprintf("import_%d", si)
+		if !cr.importAndSettle(id, cr.mainBlocks(prev, cut)) {
+			return
+		}
+		prev = cut
+		cr.queries(id, nq, true)
+	}
+	cr.state = "shallow_reorg"
+	if !cr.importAndSettle(id, cr.growBranch(cr.d.MainLen-cr.d.Shallow, cr.d.Shallow+2)) {
+		return
+	}
+	cr.queries(id, nq, false)
+	if cr.d.DeepFork > 0 {
+		cr.state = "deep_reorg"
+		head := int(cr.bc.CurrentBlock().NumberU64())
+		branch := cr.growBranchFromMain(cr.d.DeepFork, head-cr.d.DeepFork+3)
+		if !cr.importAndSettle(id, branch) {
+			return
+		}
+		if cr.bc.CurrentBlock().Hash() == branch[len(branch)-1].Hash() {
+			c.Count("service_reorg_deep_invalidated_sections")
+		}
+		cr.queries(id, nq, true)
+	}
+	cr.finalBloomCheck(id)
+	c.Count("service_chains")
+}
+
+// serviceQuery runs a query against the node's own backend: directly through
+// filters.New, or through the RPC method aqua_getLogs (JSON both ways).
+func serviceQuery(be filters.Backend, client *rpcclient.Client, q *query) ([]*types.Log, error) {
+	ctx, cancel := context.WithTimeout(context.Background(), 10*time.Minute)
+	defer cancel()
+	if q.Via == "filter" {
+		return filters.New(be, q.Begin, q.End, q.Addrs, q.Topics).Logs(ctx)
+	}
+	var raw json.RawMessage = q.jsonCriteria()
+	var out []*types.Log
+	if q.Via == "api_installed" {
+		var id string
+		if err := client.CallContext(ctx, &id, "aqua_newFilter", raw); err == nil {
+			defer client.CallContext(ctx, new(bool), "aqua_uninstallFilter", id)
+			if err := client.CallContext(ctx, &out, "aqua_getFilterLogs", id); err != nil {
+				return nil, err
+			}
+			return out, nil
+		}
+		// range shape refused by the subscription system: ask directly
+	}
+	if err := client.CallContext(ctx, &out, "aqua_getLogs", raw); err != nil {
+		return nil, err
+	}
+	return out, nil
+}
+
+var _ = fw.Register
